@@ -26,6 +26,7 @@ def main(argv):
     topo = T.by_name(name)
     job = {'id': name, 'harness': 'vk.sysrun:system', 'params': {'topo': topo, 'cfg': cfg}, 'budget_s': budget, 'n_samples': 1}
     common._init_worker()
+    sys.stdout = sys.__stdout__
     t0 = time.time()
     r = common.run_job(job)
     if r['error']:
